@@ -60,6 +60,7 @@ func VerifyIndex(ctx context.Context, name string, idx Index, n int, pb Progress
 	batch := chunksNum / (n * 10)
 
 	// Feed the workers, stop if there are any errors
+	var interrupted bool
 loop:
 	for i := 0; i < chunksNum; i = i + batch + 1 {
 		last := i + batch
@@ -69,11 +70,19 @@ loop:
 		}
 		select {
 		case <-ctx.Done():
+			interrupted = true
 			break loop
 		case in <- idx.Chunks[i : last+1]:
 		}
 	}
 	close(in)
 
-	return g.Wait()
+	if err := g.Wait(); err != nil {
+		return err
+	}
+	// No worker failed, but if we stopped feeding them early not all chunks were verified
+	if interrupted {
+		return Interrupted{}
+	}
+	return nil
 }
